@@ -49,3 +49,8 @@ Definition agrees (k : case) : bool :=
   | Some st => store_eqb (k_base k) (base st)
   | None => false
   end.
+
+(** the guard of C24_guarded and the property, evaluated on the model *)
+Require Import MS.Proofs.AggTrigger_facts.
+Definition in_domain (k : case) : bool := dests_okb 60 (k_dests k) && hist_okb 60 None (history k).
+Definition model_prop (k : case) : bool := dest_matches (k_dests k) (run (k_dests k) (history k)).
